@@ -29,7 +29,7 @@ TRUSTED = ['numpy slicing / strided views / fancy indexing as transcribed in Mod
            'pyarrow buffers() export of the point array and of the scalar shape '
            '(harness/common.py export_fixarr, harness/c02_util.py export_shape)',
            'A-FLOAT: float64/float32/int arithmetic on the enumerated small integers is exact',
-           'numba.set_num_threads(4) during the run (scheduling only)']
+           'numba.set_num_threads(1) during the run (the kernels hold no prange loop; scheduling only)']
 
 IMPORTS = 'Model.Num Model.Arrow Model.PointKernels Model.PointShape Model.PointShapeHarness'
 
@@ -220,21 +220,26 @@ def gen_degenerate():
 
 def arrow_scalar_shapes():
     """scalars built *directly* from a pyarrow scalar of an array (Geometry.__init__ keeps it
-    as is, so listarray.offset is non-zero).  The library never does this; outside the
-    quantifier; model = code is still demanded."""
+    as is, so listarray.offset is non-zero).  The library itself never does this.
+    (kind, shape, sem): sem = None where the code is known to read the wrong values (a
+    0-level scalar -- Line, MultiPoint -- ignores listarray.offset): there model = code only."""
     sq = [0, 0, 4, 0, 4, 4, 0, 4, 0, 0]
+    sqv = [(0, 0), (4, 0), (4, 4), (0, 4)]
+    hole = [(1, 1), (1, 2), (2, 1)]
+    tri = [(9, 9), (8, 8), (9, 8)]
     out = []
     a = G.make_array('polygon', [[[9, 9, 8, 8, 9, 8, 9, 9]], None, [sq, [1, 1, 1, 2, 2, 1, 1, 1]]], 'float64')
-    out.append(('polygon', G.scalar_class('polygon')(a.data[2])))
-    out.append(('polygon', G.scalar_class('polygon')(a.data[0])))
+    out.append(('polygon', G.scalar_class('polygon')(a.data[2]), [sqv, hole]))
+    out.append(('polygon', G.scalar_class('polygon')(a.data[0]), [tri]))
     a = G.make_array('multipolygon', [[[[9, 9, 8, 8, 9, 8, 9, 9]]], [[sq], [[6, 6, 8, 6, 8, 8, 6, 6]]]], 'float64')
-    out.append(('multipolygon', G.scalar_class('multipolygon')(a.data[1])))
+    out.append(('multipolygon', G.scalar_class('multipolygon')(a.data[1]),
+                [[sqv], [[(6, 6), (8, 6), (8, 8)]]]))
     a = G.make_array('multiline', [[[9, 9, 8, 8]], [[0, 0, 4, 4], [2, 0, 2, 4]]], 'float64')
-    out.append(('multiline', G.scalar_class('multiline')(a.data[1])))
+    out.append(('multiline', G.scalar_class('multiline')(a.data[1]), [[(0, 0), (4, 4)], [(2, 0), (2, 4)]]))
     a = G.make_array('line', [[9, 9, 8, 8], [0, 0, 4, 4, 4, 0]], 'float64')
-    out.append(('line', G.scalar_class('line')(a.data[1])))
+    out.append(('line', G.scalar_class('line')(a.data[1]), None))
     a = G.make_array('multipoint', [[9, 9, 8, 8], [0, 0, 4, 4, 4, 0]], 'float64')
-    out.append(('multipoint', G.scalar_class('multipoint')(a.data[1])))
+    out.append(('multipoint', G.scalar_class('multipoint')(a.data[1]), None))
     return out
 
 
@@ -464,7 +469,7 @@ def scalar_side(variants, v, tier, kind, coords, shape):
 def run(rep):
     import numba
     tier = getattr(rep, 'tier_run', rep.tier)
-    numba.set_num_threads(min(4, numba.config.NUMBA_NUM_THREADS))
+    numba.set_num_threads(1)
     rep.rule = ('shape vertices on even coordinates of a 3x3 sub-grid, points on every integer of '
                 '-1..5 squared plus 5 far points plus 2 missing slots; every simple ring of 3-4 '
                 'vertices (every start vertex, both windings), 0-2 holes wound opposite, multipolygons '
@@ -547,14 +552,14 @@ def run(rep):
                       sem=sh.get('sem'))
             rep.evaluations += 1
             rep.count(sh['cls'])
-    for j, (kind, shape) in enumerate(arrow_scalar_shapes()):
+    for j, (kind, shape, sem) in enumerate(arrow_scalar_shapes()):
         vidx = f64[j % 2]
         inds = rand_inds(rng, variants[vidx].n)
         check_one(rep, batch, vidx, kind, shape, inds,
-                  {'kind': kind, 'coords': shape.data.as_py(), 'route': 'arrow_scalar',
-                   'variant': variants[vidx].name, 'inds': inds, 'arrow_scalar_index': j})
+                  {'kind': kind, 'coords': shape.data.as_py(), 'route': 'arrow_scalar', 'sem': sem,
+                   'variant': variants[vidx].name, 'inds': inds, 'arrow_scalar_index': j}, sem=sem)
         rep.evaluations += 1
-        rep.count('degenerate:arrow_scalar_offset')
+        rep.count('arrow_scalar_offset' if sem else 'degenerate:arrow_scalar_offset_0level')
     flush(rep, batch)
     rep.extra['point_shape_pairs'] = pairs
     rep.extra['model_cases'] = len(batch.cases)
@@ -563,14 +568,14 @@ def run(rep):
 
 def replay(rep, rp):
     import numba
-    numba.set_num_threads(min(4, numba.config.NUMBA_NUM_THREADS))
+    numba.set_num_threads(1)
     variants = build_variants()
     names = [v.name for v in variants]
     batch = Batch(variants)
     vidx = names.index(rp['variant'])
     kind = rp['kind']
     if rp.get('route') == 'arrow_scalar':
-        kind, shape = arrow_scalar_shapes()[rp['arrow_scalar_index']]
+        kind, shape, _ = arrow_scalar_shapes()[rp['arrow_scalar_index']]
     else:
         shape = U.make_shape(kind, rp['coords'], rp['route'])
     sem = rp.get('sem')
